@@ -6,11 +6,15 @@ MAP_ALLOC = ["internal/allocator/allocator.go", "controller/main.go", "controlle
              "internal/k8s/controllers/service_controller.go", "internal/k8s/controllers/service_controller_reload.go"]
 
 def alloc_conf(prop, rule, extra_assume=(), level="model_checking"):
+    parts = [{"name": "main", "pkg": "controller", "test": "TestVerif_" + prop, "shards": {"quick": 16, "thorough": 16},
+              "budget_s": {"quick": 120, "thorough": 1500}, "gomaxprocs": 1}]
+    if prop in ("C01", "C02", "C11"):
+        parts.append({"name": "allocator-api", "pkg": "internal/allocator", "test": "TestVerif_L1_" + prop, "shards": {"quick": 3, "thorough": 5},
+                      "budget_s": {"quick": 60, "thorough": 900}, "gomaxprocs": {"quick": 5, "thorough": 3}})
     return {
   "level": level,
-  "rule": rule,
-  "parts": [{"name": "main", "pkg": "controller", "test": "TestVerif_" + prop, "shards": {"quick": 16, "thorough": 16},
-             "budget_s": {"quick": 120, "thorough": 1500}, "gomaxprocs": 1}],
+  "rule": rule + ("; plus (allocator-api part) explicit-state BFS over histories of the allocator's exported API (Assign, Allocate, AllocateFromPool, Unassign, SetPools) on a real Allocator with the same oracles after every single operation" if prop in ("C01", "C02", "C11") else ""),
+  "parts": parts,
   "rewrites": {"map": MAP_ALLOC},
   "assumptions": ["Kubernetes side is a model (DESIGN 3): one worker per controller, at-least-once delivery of pending keys in any order, the controller sees its own status writes",
                   "status writes persist status and annotations, never spec (Service status strategy)",
